@@ -126,6 +126,11 @@ def _I(name, a, k):
     return _calc(name, a, k)[0] % 3
 
 
+def _N(name, a, k):
+    _calc(name, a, k)
+    return None
+
+
 def wrap(x):
     return (x,)
 
@@ -134,16 +139,22 @@ def _ch(o):
     return hash_one(('custom', o))
 
 '''
+# a jugfile may choose its backend itself (documented: jug.set_jugdir); then --jugdir is NOT the store the tasks use
+SETDIR = '''with open(os.path.join(_HERE, 'jugdir.txt')) as _fh:
+    jug.set_jugdir(_fh.read().strip())
+
+'''
 
 M_FUNCS = ['f1', 'f10', 'f2', 'g', 'gg']
 I_FUNCS = ['i1', 'ix']
+N_FUNCS = ['nil']                # run for their side effect: the result is None
 MAPPERS = ['mp']
 
 
 def fun_def(name):
     if name in MAPPERS:
         return 'def %s(x):\n    return _I(%r, (x,), {})\n\n' % (name, name)
-    kind = '_M' if name in M_FUNCS else '_I'
+    kind = '_M' if name in M_FUNCS else '_N' if name in N_FUNCS else '_I'
     return '@TaskGenerator\ndef %s(*a, **k):\n    return %s(%r, a, k)\n\n' % (name, kind, name)
 
 
@@ -183,6 +194,8 @@ def render(e):
 
 def jugfile_text(spec):
     out = [PRELUDE]
+    if spec.get('setdir'):
+        out.append(SETDIR)
     for f in spec['funcs']:
         out.append(fun_def(f))
     for i, s in enumerate(spec['stmts']):
@@ -325,6 +338,8 @@ def fn_value(name, salts, a, k):
     h = calc(name, salts, a, k)
     if name in M_FUNCS:
         return [[h[3 * i + j] % 3 for j in range(3)] for i in range(3)]
+    if name in N_FUNCS:
+        return None
     return h[0] % 3
 
 
@@ -563,9 +578,10 @@ class Gen:
         if rng.random() < 0.2 and 'g' in mf and 'gg' not in mf:
             mf.append('gg')
         ifs = rng.sample(I_FUNCS, rng.choice([1, 1, 2]))
+        nfs = list(N_FUNCS) if rng.random() < 0.3 else []
         use_map = rng.random() < 0.6
         use_cont = rng.random() < 0.45
-        self.funcs = mf + ifs + (['mp'] if use_map else [])
+        self.funcs = mf + ifs + nfs + (['mp'] if use_map else [])
         for _ in range(self.size):
             r = rng.random()
             tasks = [i for i, s in enumerate(self.stmts) if s['kind'] == 'task']
@@ -599,11 +615,11 @@ class Gen:
                 self.stmts.append(json.loads(json.dumps(self.stmts[k])))
                 self.types.append(self.types[k])
             else:
-                fn = rng.choice(mf + ifs)
+                fn = rng.choice(mf + ifs + nfs)
                 args = [self.gen_arg() for _ in range(rng.choice([0, 1, 1, 2, 2, 3]))]
                 kwargs = [[k, self.gen_arg()] for k in rng.sample(['p', 'q'], rng.choice([0, 0, 0, 1, 2]))]
                 self.stmts.append({'kind': 'task', 'fn': fn, 'args': args, 'kwargs': kwargs})
-                self.types.append('M' if fn in M_FUNCS else 'I')
+                self.types.append('M' if fn in M_FUNCS else 'X' if fn in N_FUNCS else 'I')
         # a container that some task received gets (more) content after that task was created
         for k in self.vars_of('C'):
             used = [i for i in range(len(self.stmts)) if self.stmts[i]['kind'] != 'cont' and k in self.stmt_refs(i)
@@ -618,7 +634,7 @@ class Gen:
                     nfill = sum(1 for f in self.stmts if f['kind'] == 'fill' and f['cont'] == k)
                     self.stmts.append({'kind': 'fill', 'cont': k, 'key': 'k%d' % nfill, 'arg': ['ref', len(self.stmts) - 1]})
                     self.types.append('F')
-        return {'funcs': self.funcs, 'stmts': self.stmts}
+        return {'funcs': self.funcs, 'stmts': self.stmts, 'setdir': rng.random() < 0.15}
 
 
 def gen_targets(rng, spec, otasks, limit):
@@ -691,10 +707,11 @@ def call_main(argv):
 class Env:
     """one store; several Envs share the directory of the jugfile"""
 
-    def __init__(self, backend, root, tag):
+    def __init__(self, backend, root, tag, setdir=False):
         self.backend = backend
         self.root = root
         self.tag = tag
+        self.setdir = setdir             # the jugfile calls jug.set_jugdir(<this store>); --jugdir names a decoy
         self.jugfile = os.path.join(root, MODNAME + '.py')
         self.jd = os.path.join(root, 'jd_' + tag)
         self.dfile = os.path.join(root, 'dict_%s.pkl' % tag)
@@ -703,6 +720,9 @@ class Env:
     def activate(self):
         if self.srv is not None:
             fakeredis.install(self.srv)
+        if self.setdir:
+            with open(os.path.join(self.root, 'jugdir.txt'), 'w') as fh:
+                fh.write(self.real_arg())
 
     def open(self):
         self.activate()
@@ -713,6 +733,13 @@ class Env:
         return redis_mod.redis_store(REDIS_URL)
 
     def jugdir_arg(self):
+        """what goes after --jugdir: the store itself, or a decoy when the jugfile selects the store"""
+        self.activate()
+        if self.setdir:
+            return os.path.join(self.root, 'decoy_' + self.tag)
+        return self.real_arg()
+
+    def real_arg(self):
         if self.backend in ('file', 'filepack'):
             return self.jd
         if self.backend == 'dict':
@@ -720,7 +747,7 @@ class Env:
         return REDIS_URL
 
     def clone(self, tag):
-        e = Env(self.backend, self.root, tag)
+        e = Env(self.backend, self.root, tag, self.setdir)
         if self.backend in ('file', 'filepack'):
             if os.path.isdir(self.jd):
                 shutil.copytree(self.jd, e.jd)
@@ -902,7 +929,7 @@ def make_plan(rng, spec, state, backend):
 
 def build_base(spec, state, backend, root, plan):
     """write the jugfile, run the real execute, then carve the requested store state as the plan says"""
-    env = Env(backend, root, 'base')
+    env = Env(backend, root, 'base', bool(spec.get('setdir')))
     with open(env.jugfile, 'w') as fh:
         fh.write(jugfile_text(spec))
     write_salts(root, {})
@@ -1223,6 +1250,8 @@ def run_program(ck, spec, state, backend, rng, root, ntargets, cases, metas, sta
     targets = gen_targets(rng, spec, otasks, ntargets)
     for ti, target in enumerate(targets):
         driver = ('cli', 'direct')[(stats['n'] // 3) % 2]
+        if spec.get('setdir'):
+            driver = 'cli'                 # the point of the variant is the command-line path: main() -> init() -> command
         stats['n'] += 1
         obs = run_target(spec, base, info, otasks, h_of, target, 't%d' % ti, driver)
         meta = {'spec': spec, 'state': state, 'backend': backend, 'plan': plan, 'target': target, 'driver': driver,
@@ -1240,6 +1269,10 @@ def run_program(ck, spec, state, backend, rng, root, ntargets, cases, metas, sta
         inv_n = len(obs['remove_many'][0]) if obs['remove_many'] else 0
         ck.distinct(lit, bool(obs['matched_names']) and bool(obs['before']))
         ck.count('backend:%s' % backend)
+        if spec.get('setdir'):
+            ck.count('jugfile selects its store with jug.set_jugdir (--jugdir names another location)')
+        if any(st['kind'] == 'task' and st['fn'] in N_FUNCS for st in spec['stmts']):
+            ck.count('program with tasks whose result is None')
         ck.count('state:%s' % state)
         ck.count('driver:%s' % driver)
         ck.count('target:%s' % ('regex' if target.startswith('/') else 'dotted' if '.' in target else 'bare'))
